@@ -75,7 +75,7 @@ def main():
                 "quick_cmd": "./vcheck %s --tier quick" % pid,
                 "thorough_cmd": "./vcheck %s --tier thorough" % pid,
                 "evidence_file": "/verif/evidence/%s.json" % pid,
-                "replay_cmd_template": "cat {path}  # replay file: harness, inputs (solver model), decision vector; re-run: ./vcheck %s" % pid,
+                "replay_cmd_template": "./vcheck --replay {path}",
                 "engine": "symgo",
                 "level_claimed": {"category": "model_checking", "text": text, "design_ref": ref},
                 "level_note": LEVEL_NOTE,
